@@ -22,6 +22,9 @@ CHECKS = {
  "C11": dict(technique="TLA+ spec Pivot (shared pivot table, per-task snapshot prefix, one action per critical section: Start / Search / Lock=Retry|Commit); TLC explores every interleaving on every 3x3 (thorough 3x4) pattern with Acyclic, distinctness, termination; TLC behaviours replayed as forced schedules into the real threads through cfg(yui_verif) gate hooks; all recorded events validated by Trace_Pivot",
              text="Exhaustive interleaving exploration of the design on small matrices, plus conformance of the real threads in both directions: schedules generated by TLC are forced on the real worker threads at the hook points, and every run (forced, randomly gated, or free on 1..16 threads) is validated event by event against the spec with the acyclicity invariant evaluated after every commit and the result contract on the returned list.",
              note="Trusted: TLC; hooks emit Retry/Commit under the write lock; the controller realises schedules only as far as rayon makes the tasks available (non-applicable steps are counted and skipped).", design="§3 C11"),
+ "C09": dict(technique="TLA+ specs SnfSteps (elementary-operation state machine with invariant T = P A Q, P Pi = I, Q Qi = I, explored by TLC over all small inputs and operation sequences) and SNF (relational result contract incl. gcd-of-minors definition); recorded snf calls over 11 rings x 7 flag subsets validated by Trace_SNF",
+             text="TLC checks the design (each elementary operation preserves the transform invariant; the diagonal fix-up identity) and that the result contract determines the Smith form on complete small domains; every recorded call of the real routine (planted invariant factors, rank-deficient, zero-dimensional, entries to 10^100/10^300, all flag subsets, deadline) is validated against the contract with exact limb arithmetic.",
+             note="Trusted: TLC, Rings/Matrices libraries. Termination is observed with a 30 s deadline per call (normal: milliseconds).", design="§3 C09"),
 }
 PENDING = "not yet bound to the specification in this round (see DESIGN.md section 3 for the planned spec and binding)"
 m = {
